@@ -1,6 +1,13 @@
 """Single table of claimed checks; bin/mkmanifest renders MANIFEST.json from it."""
 
 CHECKS = {
+    "C06": dict(
+        level="translation_validation",
+        technique="TLA+ generator GenExpr (prefix-token derivations of expression trees over numeric literals; BFS + -simulate); TLA+ spec MSNum evaluates every tree exactly (CheckFold!Ev) and classifies ill-typed trees statically (KindOf); each tree is executed twice by the real binary - folded (compiler evaluates) and unfolded (interpreter evaluates, literals through variables) - and TLC (CheckFold) judges the three-way agreement of kind and exact value, and that the folded rendering is rejected at compile time exactly when evaluation must fail",
+        text="Per-tree three-way equivalence between the specification, the compiler's constant folder and the interpreter, exhaustive for one operator level over the literal set (11k trees quick, 27 literals thorough) plus sampled deeper trees.",
+        note="Literals are the non-negative representable ones of each kind (an int literal that does not fit 32 bits is outside the set); `!`, comparisons and booleans are not part of the generated trees; ill-typed trees are skipped, not judged.",
+        design="5/C06",
+    ),
     "C05": dict(
         level="exploration",
         technique="TLA+ spec MSNum: the numeric tower as exact arithmetic on limb sequences (i32/i128/u8 ranges, promotion table, truncating division, sign-of-dividend remainder, two's-complement bit operations and shifts, IEEE-754 binary64 add/sub/mul/div/fmod/int->double with round-to-nearest-even by integer arithmetic); TLA+ generator GenNum enumerates operator x kind pair x boundary-value pairs; every case is executed by the real binary with run-time operands and its typed result (kind + exact bits) is judged by TLC (CheckNum)",
